@@ -173,6 +173,7 @@ type JobConfig struct {
 	UnwindBound int
 	ShuffleSwaps int
 	EagerAsserts bool
+	SortFrontOnlyAbove int
 	Stubs        map[string]string
 	JobTimeoutS  int
 	AssertPrefix []string
